@@ -29,7 +29,7 @@ type scenario struct {
 	Format  string
 	Inherit bool             // LattrsR
 	Chain   [][]vlib.ExpAttr // own attributes of each logger, outermost first; the last one logs
-	HowSet  []int            // how each logger gets its attributes: 0 Set(args) 1 SetAttrs 2 With option at creation 3 SetAttrs1
+	HowSet  []int            // how each logger gets its attributes: 0 Set(args) 1 SetAttrs 2 With option at creation 3 SetAttrs1 4 SetAttrs1(NewAttrs(args))
 	CtxKeys []ctxKeySpec
 	CtxMode string // "ctx" | "nil" | "plain" (non-context verb)
 	Call    []vlib.ExpAttr
@@ -40,6 +40,7 @@ type scenario struct {
 	// second record: after the first one, logger Mutate (index, -1 none) gets MoreAttrs, then the
 	// last logger logs again with Call2
 	FlagsHow  int // which public way sets the flags (vlib.SetFlagsVia)
+	Disturb   int // which scratch record is printed right before the record under test (vlib.Disturb; 0 none)
 	Mutate    int
 	MoreAttrs []vlib.ExpAttr
 	Call2     []vlib.ExpAttr
@@ -80,7 +81,7 @@ func genScenario(t *rapid.T) scenario {
 		} else {
 			sc.Chain = append(sc.Chain, genList(t, 1, 6, 0))
 		}
-		sc.HowSet = append(sc.HowSet, rapid.IntRange(0, 3).Draw(t, "how"))
+		sc.HowSet = append(sc.HowSet, rapid.IntRange(0, 4).Draw(t, "how"))
 	}
 	nk := rapid.IntRange(0, 3).Draw(t, "nctxkeys")
 	stringKeys := map[string]bool{}
@@ -115,6 +116,7 @@ func genScenario(t *rapid.T) scenario {
 	}
 	sc.Verb = rapid.IntRange(0, 2).Draw(t, "verb")
 	sc.FlagsHow = rapid.SampledFrom([]int{0, 0, 1, 2, 3}).Draw(t, "flagsHow")
+	sc.Disturb = rapid.SampledFrom([]int{0, 0, 0, 1, 2, 3, 4, 5, 6}).Draw(t, "disturbance")
 	if rapid.IntRange(0, 3).Draw(t, "commonAttrs1") == 0 {
 		sc.Common = []vlib.ExpAttr{{Key: "cm", Val: vlib.Value{Kind: "string", V: "common"}}}
 	}
@@ -207,6 +209,8 @@ func run(t *rapid.T, test string, sc scenario) {
 				lg.SetAttrs(vlib.BuildAttrs(t, own)...)
 			case 3:
 				lg.SetAttrs1(slog.Attrs(vlib.BuildAttrs(t, own)))
+			case 4:
+				lg.SetAttrs1(slog.NewAttrs(args...)) // the package's own list constructor (the list may repeat keys)
 			}
 		}
 		name = nm
@@ -284,6 +288,7 @@ func run(t *rapid.T, test string, sc scenario) {
 
 		callArgs := vlib.BuildArgs(t, call)
 		const msg = "assembly probe"
+		vlib.Disturb(sc.Disturb)
 		func() {
 			defer func() {
 				if p := recover(); p != nil {
